@@ -275,7 +275,7 @@ LEVELS = {
         text='Machine-checked on the event-system model, for every action behaviour: same weights => same evolution; the evolution does not depend on the numbering of events; '
              'order-preserving renumbering of asset ids commutes with every queue operation; the marker event of run() is transparent; and from these the RUN-SPLIT THEOREM: '
              'running for a then b ends in the same world, clock, data and pending/paused events as running once for a+b when the second run hands the remaining events the same weights (C14_run_split). '
-             'PARTIAL only for worker processes (multi-process clause), decided by the reproducibility monitor (rerun / seeded / split / multi-process variants) plus lock-step against the pure model.',
+             'PARTIAL only for worker processes (multi-process clause), decided by the reproducibility monitor (rerun / seeded / split / multi-process variants) plus lock-step against the pure model. The run-split theorem is instantiated for the whole floor system: every environment call of a floor action is proved well-formed (C14_floor_calls_well_formed, C14_floor_run_split).',
         design_ref='DESIGN.md sections 0.3 and 8, C14', technique='Coq proof (weight extensionality, numbering independence, renaming equivariance, marker transparency, run-split by simulation) + lock-step correspondence at varying id offsets + differential reruns of the implementation',
         note='Partial: process-level behaviour is not a theorem (a Coq model cannot exhibit worker processes). Run-split hypotheses: pending events above the terminate priority, actions never pause/cancel id -1.'),
     'C04': dict(
